@@ -239,6 +239,20 @@ def main() -> int:
         print(f"VIOLATION property={pid} replay={path}")
         print("  ", what)
 
+    # a few concrete inputs of the spaces the CrossHair partitions quantified over (decoded natively from the harness's
+    # own enumerator), so that a reader sees what a case looks like
+    seen_h = set()
+    for s_ in plan:
+        if isinstance(s_, CH) and (s_.module, s_.func) not in seen_h and len(seen_h) < 4:
+            seen_h.add((s_.module, s_.func))
+            try:
+                import itertools
+
+                hm = importlib.import_module(s_.module)
+                for args in itertools.islice(hm.CANDIDATES(s_.func), 0, 40, 19):
+                    samples.append({"harness_input": f"{s_.module}.{s_.func}", "args": args})
+            except Exception:  # noqa: BLE001
+                pass
     wall = time.time() - t0
     funcs = [source_hash(n) for n in getattr(prop, "FUNCTIONS", [])]
     ev = {
